@@ -1,6 +1,7 @@
 \* C02 quick, collections: keys {"", a, b, é}; every tree of depth <= 1 over ALL leaves with <= 2 pairs
 \* (pair, array, slice, BTreeMap, HashMap, empty; 69 leaves), plus every tree of depth <= 2 over 8 chosen leaves;
 \* nodes: Option None/Some, &, Box, Arc, dyn ErasedProps, dedup(), as_map(), and_props. All values distinct.
+\* Every collection is replayed under the 6 key storage forms of Props.tla (KeyForms) with lookup keys separate / from the same buffer / prefix slices of enumerated keys.
 SPECIFICATION Spec
 CONSTANTS
     KeyOrder <- MC_KeyOrder
